@@ -156,11 +156,12 @@ def hypotheses(ctx, suite, docs):
               plain_transitions=sum(int(x.split("plain=")[1].split("/")[0]) for x in out if "plain=" in x),
               transitions=sum(int(x.split("plain=")[1].split("/")[1].split(" ")[0]) for x in out if "plain=" in x),
               history_free=sum(1 for x in out if "hist=0" in x), history_free_entry_ok=sum(1 for x in out if "hist=0" in x and "entry=1" in x),
-              history_free_down_ok=sum(1 for x in out if "hist=0" in x and "down=1" in x))
+              history_free_down_ok=sum(1 for x in out if "hist=0" in x and "down=1" in x),
+              plain_charts=sum(1 for x in out if "hist=0" in x and "init=0" in x), plain_charts_xor_ok=sum(1 for x in out if "hist=0" in x and "init=0" in x and "xor=1" in x))
     for d, x in zip(docs, out):
-        if ("coh=1" not in x or "ival=1" not in x or "wfdoc=1" not in x or ("hist=0" in x and ("entry=1" not in x or "down=1" not in x))) and not any(p.endswith("hypotheses.txt") for p, _ in ctx.violations):
+        if ("coh=1" not in x or "ival=1" not in x or "wfdoc=1" not in x or ("hist=0" in x and ("entry=1" not in x or "down=1" not in x)) or ("hist=0" in x and "init=0" in x and "xor=1" not in x)) and not any(p.endswith("hypotheses.txt") for p, _ in ctx.violations):
             ctx.violation("hypotheses", suite, [case_line("tables", d, [])], found_input=False,
-                          detail="a generated (valid) chart is outside the hypotheses Coherent / IntervalOK (or, being history-free, EntryOk / SelPlain / SelPlainF / DownOk) of the structural theorems (%s): they say nothing about it\nchart: %s" % (x, charts.sexpr(d)))
+                          detail="a generated (valid) chart is outside the hypotheses Coherent / IntervalOK (or, being history-free, EntryOk / SelPlain / SelPlainF / DownOk; without <initial> elements also XorOk) of the structural theorems (%s): they say nothing about it\nchart: %s" % (x, charts.sexpr(d)))
     ctx.add_suite(suite, **st)
     return st
 
